@@ -179,7 +179,7 @@ func c14Class(s string) string {
 }
 
 func runC14(r *core.Run) {
-	r.Rule("(1) round trips NewTokenV3/V4 -> Serialize -> DecodeToken over generated proof lists (0..40 proofs, 1..4 hex keyset ids, secrets incl. NUT-10 JSON / quotes / backslashes / non-ASCII, witnesses, DLEQ absent / e,s only / complete / mixed, amounts up to 2^63, includeDLEQ on/off): mint URL, unit, proof multiset and Amount() must survive; (2) decoder totality: every prefix of valid tokens, every string of length 0..5 over {c,a,s,h,u,A,B,e,=,-,_,0}, cashuA/cashuB + short suffixes, white space and control characters alone / around / inside the prefix and around valid tokens, single-byte mutations and truncations, wrong prefixes, base64 of generated JSON / CBOR values — no entry point and no accessor may panic; non-trivial = distinct inputs (round trips that succeeded; decoder inputs by value)")
+	r.Rule("(1) round trips NewTokenV3/V4 -> Serialize -> DecodeToken over generated proof lists (0..40 proofs, 1..4 hex keyset ids, secrets incl. NUT-10 JSON / quotes / backslashes / non-ASCII, witnesses, DLEQ absent / e,s only / complete / mixed, amounts up to 2^63, includeDLEQ on/off): mint URL, unit, proof multiset and Amount() must survive; (2) decoder totality: every prefix of valid tokens, every string of length 0..5 over {c,a,s,h,u,A,B,e,=,-,_,0}, cashuA/cashuB + short suffixes, white space and control characters alone / around / inside the prefix and around valid tokens, single-byte mutations and truncations, wrong prefixes, base64 of generated JSON / CBOR values — no entry point and no accessor may panic; mint URLs include trailing slashes, paths, upper case, ports, queries, surrounding blanks (Mint() must return what went in); non-trivial = distinct inputs (round trips that succeeded; decoder inputs by value)")
 	r.Assume("trusted: encoding/json, fxamacker/cbor, encoding/base64; only valid UTF-8 secrets and lower-case hex are generated")
 	nRT := pick(r, 2000, 60000)
 	// ---------------- (1) round trips
